@@ -627,7 +627,14 @@ impl<K: SimKey> World<K> {
                 }
                 let want = self.expect_range(*k, *start, *end);
                 let cas = self.cas.as_ref().unwrap();
+                crate::alloc::window_start();
                 let got = interpose::enter(|| cas.get_range(key, *start, *end));
+                let max_alloc = crate::alloc::window_end();
+                // "no request ... allocates beyond L": observed from outside (largest single allocation)
+                let l = self.model.get(key).map_or(0, |&c| self.contents[c].len());
+                if max_alloc > l + (64 << 10) {
+                    return Err(fail(&["C17"], "allocation-bound", i, format!("get_range({key:?}, {start}, {end}) on a {l}-byte blob made a single allocation of {max_alloc} bytes")));
+                }
                 match (got, want) {
                     (Ok(g), Ok(w)) if g.as_ref().map(|b| b.as_ref()) == w.as_deref() => Ok(()),
                     (Err(_), Err(())) => Ok(()),
